@@ -147,6 +147,28 @@ theorem pair_sums_to_p (fv : List Rat) (c : Rat) (h : Dec8 c) (hm : 1 < (decode 
     simp [hv]
   rw [e1, e2]; ring
 
+/-- **pair_occupancies_in_range**: for a disorder pair `10m+p` / `-(10m+p)` with `0 ≤ p` and a free variable
+    `0 ≤ v ≤ 1`, both occupancies the code computes are fractions of `p` (between 0 and `p`): the two components of a
+    disordered site never get a negative occupancy or more than the site's multiplicity factor. -/
+theorem pair_occupancies_in_range (fv : List Rat) (c : Rat) (h : Dec8 c) (hm : 1 < (decode c).1)
+    (hp0 : 0 ≤ (decode c).2) (v : Rat) (hv : fvOfList fv (decode c).1 = some v)
+    (hv0 : 0 ≤ v) (hv1 : v ≤ 1) :
+    0 ≤ occupancy fv c ∧ occupancy fv c ≤ (decode c).2 ∧ 0 ≤ occupancy fv (-c) ∧ occupancy fv (-c) ≤ (decode c).2 := by
+  have hp : (decode c).2 ≠ -5 := by intro e; rw [e] at hp0; norm_num at hp0
+  have hsum := pair_sums_to_p fv c h hm hp v hv
+  have e1 : occupancy fv c = (decode c).2 * v := by
+    apply occ_eq_rule fv c h
+    have : ¬ ((decode c).1 = 0 ∨ (decode c).1 = 1) := by omega
+    simp [specOcc, ruleOcc, this, hm, hv]
+  have hA : 0 ≤ (decode c).2 * v := mul_nonneg hp0 hv0
+  have hB : (decode c).2 * v ≤ (decode c).2 := by nlinarith
+  rw [e1] at hsum ⊢
+  refine ⟨hA, hB, ?_, ?_⟩ <;> linarith
+
+example : Dec8 (20.5 : Rat) ∧ 1 < (decode (20.5 : Rat)).1 ∧ 0 ≤ (decode (20.5 : Rat)).2 ∧ (decode (20.5 : Rat)).2 ≤ 1
+    ∧ fvOfList [1, 3/4] (decode (20.5 : Rat)).1 = some (3/4) := by
+  refine ⟨⟨2050000000, by norm_num⟩, ?_, ?_, ?_, ?_⟩ <;> decide +kernel
+
 /-! ### sum formulae -/
 
 theorem dictAdd_dictAdd (d : List (String × Rat)) (k : String) (x y : Rat) :
